@@ -50,5 +50,5 @@ _sp['agg_update_base_hostname'] = 'skel/agg_update_base_hostname.frombase.spec'
 OBLS.append(Obl('C10.parse_url_impl.host_type_from_base', ['C10', 'C04', 'C02'], 'Pinf', 'c10/parse_hosttype_base.c', roots=['parse_url_impl_agg_1'],
                 stub=_ABS, specs=_sp, bufn=8, defines=['STR_CAP=6', 'BUF_START=1'], includes=['spec/urlspec.h', 'spec/scan.h', 'model/hosttype_ghost.h'],
                 globals=[('omitted', 'const unsigned int')], enums=[('ada::state', x) for x in ('PORT', 'FRAGMENT', 'RELATIVE_SCHEME', 'RELATIVE_SLASH', 'SPECIAL_RELATIVE_OR_AUTHORITY', 'AUTHORITY')],
-                solver='cadical', timeout=3000, object_bits=12, unwind=8,
+                solver='cadical', timeout=3000, object_bits=12, unwind=12,
                 note='parser state machine (loops cut, sub-parsers abstract): host taken over from the base => host_type taken over too, at every exit'))
